@@ -1040,14 +1040,11 @@ impl Probe {
         but the rrtypes differ, the record with the lower rrtype number comes
         first."
          */
+        // Records of the same class and type are ordered by their rdata, e.g. several
+        // addresses of a host: both sides of a tiebreak must walk them in the same order.
         let insert_position = self
             .records
-            .binary_search_by(
-                |existing| match existing.get_class().cmp(&record.get_class()) {
-                    std::cmp::Ordering::Equal => existing.get_type().cmp(&record.get_type()),
-                    other => other,
-                },
-            )
+            .binary_search_by(|existing| existing.compare(record.as_ref()))
             .unwrap_or_else(|pos| pos);
 
         self.records.insert(insert_position, record);
@@ -1064,11 +1061,13 @@ impl Probe {
             return;
         }
 
-        let incoming: Vec<_> = msg
+        let mut incoming: Vec<_> = msg
             .authorities()
             .iter()
             .filter(|r| r.get_name() == probe_name)
             .collect();
+        // The other host may list its records in any order: sort them as ours are.
+        incoming.sort_by(|a, b| a.compare(b.as_ref()));
         /*
         RFC 6762 section 8.2: https://datatracker.ietf.org/doc/html/rfc6762#section-8.2
         ...
